@@ -217,6 +217,26 @@ def domEngine (c i : List String) : Option Res := do
       let agree := ms == outs.map join && mcmps == cmpsT
       pure { agree := agree, phi := phiDomSeq uv n ops outs && phiCmp, model := " ; ".intercalate ms ++ " | " ++ join mcmps }
     | _ => none
+  | "perm" :: n :: uv :: rest =>
+    -- the same states recorded in two orders (implementation, twice), then the same probes: C18 order independence
+    let n ← nat? n
+    let uv := uv == "1"
+    match splitAt "|" rest with
+    | [ph, probes] =>
+      let phase ← (splitAt ";" ph).filter (· ≠ []) |>.mapM parseQ
+      let probes ← (splitAt ";" probes).filter (· ≠ []) |>.mapM parseQ
+      match splitAt "/" i with
+      | [oa, ob] =>
+        let outsA := (splitAt ";" oa).filter (· ≠ [])
+        let outsB := (splitAt ";" ob).filter (· ≠ [])
+        let ops := phase.map (fun (s, d, v) => DOp.q s d v) ++ probes.map (fun (s, d, v) => DOp.q s d v)
+        let (ms, _) := runDom uv n ops
+        let mfin := ms.drop phase.length
+        let same := outsA == outsB
+        pure { agree := mfin == outsA.map join, phi := same, model := " ; ".intercalate mfin,
+               note := if same then "" else "F:C18 [C18:the dominance store answers the same probes differently after the same states were recorded in another order]" }
+      | _ => none
+    | _ => none
   | "conc" :: n :: uv :: rest =>
     let n ← nat? n
     let uv := uv == "1"
